@@ -21,7 +21,7 @@ from vf.xmodel import build_api, Schema, Rop
 
 SHARDS = {'quick': 16, 'thorough': 64}
 TIMEOUT = {'quick': 1200, 'thorough': 7200}
-MUST_HIT = ['Join.api-reflexive-pairs', 'Join.api-batch-relate', 'EarlierObject.rechecked', 'Join.loader', 'Canon.permutation', 'Canon.partition-inputs', 'Canon.files',
+MUST_HIT = ['Input.short-positional-row', 'Join.api-reflexive-pairs', 'Join.api-batch-relate', 'EarlierObject.rechecked', 'Join.loader', 'Canon.permutation', 'Canon.partition-inputs', 'Canon.files',
             'Canon.directory-tree', 'Canon.zip', 'Join.api-new', 'Join.api-clone', 'Canon.inferred-schema',
             'Join.null-key', 'Join.duplicate-key', 'Join.dangling-key', 'Join.multi-attribute-key']
 MUST_REACH = ['xtuml/load.py:ModelLoader.populate_connections', 'xtuml/meta.py:Link.compute_lookup_key',
@@ -187,7 +187,7 @@ def classify_pop(ctx, schema, pop, expected):
 
 def statements_for(schema, pop, rng):
     stmts = sqlgen.schema_statements(schema)
-    stmts += [t for _, _, t in sqlgen.insert_statements(schema, pop, rng, named=True, omit_unset=True)]
+    stmts += [t for _, _, t in sqlgen.insert_statements(schema, pop, rng, named=True, omit_unset=True, short_rows=True)]
     return stmts
 
 
@@ -590,5 +590,6 @@ def run(ctx):
                 inferred_checks(ctx, rng)
             except Mismatch as e:
                 ctx.violation(e.key, e.what, case=dict(part='inferred'))
+        ctx.hit('Input.short-positional-row', sqlgen.SHORT_ROWS[0])
     finally:
         shutil.rmtree(tmpdir, ignore_errors=True)
